@@ -70,12 +70,12 @@ PROPS_PART = {
             dict(harness='bnd_label_cmp_is_canonical_16', module='names', kind='bounded', bound='labels <= 16 octets', tier='quick', what='[C16.label_cmp] Label::cmp == RFC 4034 6.1 reference'),
             dict(harness='bnd_label_cmp_equal_iff_eq_16', module='names', kind='bounded', bound='labels <= 16 octets', tier='quick', what='[C16.label_cmp] cmp==Equal iff eq'),
             dict(harness='bnd_label_cmp_antisymmetric_16', module='names', kind='bounded', bound='labels <= 16 octets', tier='quick', what='[C16.label_cmp] antisymmetry'),
-            dict(harness='bnd_labelbuf_agrees_with_label_16', module='names', kind='bounded', bound='labels <= 16 octets', tier='quick', what='LabelBuf eq/cmp/hash == those of the Label it holds'),
-            dict(harness='bnd_name_eq_is_labelwise_ci', module='names', kind='bounded', bound='<= 3 labels x <= 2 arbitrary octets', tier='quick', what='[C16.name_eq] Name::eq == same label count and pairwise ci-equal labels'),
-            dict(harness='bnd_name_eq_or_subdomain_of', module='names', kind='bounded', bound='<= 3 labels x <= 2 arbitrary octets', tier='quick', what='[C16.subdomain] eq_or_subdomain_of == label-suffix reference'),
-            dict(harness='bnd_name_label_access', module='names', kind='bounded', bound='<= 3 labels x <= 2 arbitrary octets', tier='quick', what='[C16.labels] len, wire_repr, Index, labels(), is_root, wire_repr_to/from == reference'),
-            dict(harness='bnd_name_superdomain', module='names', kind='bounded', bound='<= 3 labels x <= 2 arbitrary octets', tier='quick', what='[C16.superdomain] superdomain(skip) == labels from skip on / None (real allocation)'),
-            dict(harness='bnd_name_from_str_matches_reference', module='names', kind='bounded', bound='every ASCII text <= 5 octets', tier='quick', what='[C16.text_accepts] parse == independent RFC 1035/4343 decoder (real builder + unsafe allocation)'),
+            dict(harness='bnd_labelbuf_agrees_with_label_16', module='names', kind='bounded', bound='labels <= 16 octets', tier='thorough', what='LabelBuf eq/cmp/hash == those of the Label it holds'),
+            dict(harness='bnd_name_eq_is_labelwise_ci', module='names', kind='bounded', bound='<= 3 labels x <= 2 arbitrary octets', tier='thorough', what='[C16.name_eq] Name::eq == same label count and pairwise ci-equal labels'),
+            dict(harness='bnd_name_eq_or_subdomain_of', module='names', kind='bounded', bound='<= 3 labels x <= 2 arbitrary octets', tier='thorough', what='[C16.subdomain] eq_or_subdomain_of == label-suffix reference'),
+            dict(harness='bnd_name_label_access', module='names', kind='bounded', bound='<= 3 labels x <= 2 arbitrary octets', tier='thorough', what='[C16.labels] len, wire_repr, Index, labels(), is_root, wire_repr_to/from == reference'),
+            dict(harness='bnd_name_superdomain', module='names', kind='bounded', bound='<= 3 labels x <= 2 arbitrary octets', tier='thorough', what='[C16.superdomain] superdomain(skip) == labels from skip on / None (real allocation)'),
+            dict(harness='bnd_name_from_str_matches_reference', module='names', kind='bounded', bound='every ASCII text <= 5 octets', tier='thorough', what='[C16.text_accepts] parse == independent RFC 1035/4343 decoder (real builder + unsafe allocation)'),
             dict(harness='bnd_name_make_ascii_lowercase', module='names', kind='bounded', bound='<= 3 labels x <= 2 arbitrary octets', tier='thorough', what='[C16.lowercase] folds label octets, structure untouched'),
             dict(harness='bnd_name_hash_is_folded_wire', module='names', kind='bounded', bound='<= 3 labels x <= 2 arbitrary octets', tier='thorough', what='[C16.name_hash] hasher input == case-folded wire form'),
             dict(harness='bnd_name_cmp_is_canonical', module='names', kind='bounded', bound='<= 3 labels x <= 2 arbitrary octets', tier='thorough', what='[C16.name_cmp] Name::cmp == RFC 4034 6.1 name order'),
